@@ -111,6 +111,13 @@ fn main() {
         let mut flow = hydro_lang::compile::builder::FlowBuilder::new();
         let a = flow.process::<net::A>();
         let b = flow.process::<net::B>();
+        net::n_lossy(a.embedded_input("in0"), &b);
+        emit(&out_dir, &mut names, "n_lossy", flow.with_process(&a, "n_lossy_a").with_process(&b, "n_lossy_b").generate_embedded("e4_flows"));
+    }
+    {
+        let mut flow = hydro_lang::compile::builder::FlowBuilder::new();
+        let a = flow.process::<net::A>();
+        let b = flow.process::<net::B>();
         net::n_hop_fold(a.embedded_input("in0"), &b);
         emit(&out_dir, &mut names, "n_hop_fold", flow.with_process(&a, "n_hop_fold_a").with_process(&b, "n_hop_fold_b").generate_embedded("e4_flows"));
     }
